@@ -3,7 +3,7 @@
    Claim -> checkBridgerIsOracle -> Attest -> TryAttestation, ExecuteClaim, and the oracle
    membership operations), for every configuration and every operation list. *)
 From Coq Require Import ZArith List Bool.
-From FxV Require Import model.M_Attest proofs.P_Attest.
+From FxV Require Import gen.Gen_Attest model.M_Attest proofs.P_Attest proofs.P_AttestGen.
 Import ListNotations.
 Open Scope Z_scope.
 
@@ -45,3 +45,74 @@ Theorem C01_observed_only_next : forall c s x n cl a',
   (n = last_obs s + 1 /\ last_obs (fst (step c s x)) = n).
 Proof. exact observed_only_next. Qed.
 Print Assumptions C01_observed_only_next.
+
+(* an oracle neither votes twice for a nonce nor skips one: in every history without an Unbond of oracle w,
+   the nonces of w's accepted votes are consecutive (hence pairwise distinct) *)
+Theorem C01_oracle_contiguous : forall c h w,
+  guarded c (no_unbond_of w) init h ->
+  consec (nonces_of w (vlog (run c init h))) /\ NoDup (nonces_of w (vlog (run c init h))).
+Proof. exact votes_contiguous. Qed.
+Print Assumptions C01_oracle_contiguous.
+
+(* every accepted vote is for exactly the oracle's cursor + 1 and is logged for that oracle *)
+Theorem C01_vote_is_next : forall s b n cl park ms,
+  snd (vote s b n cl park ms) = Ok ->
+  exists o rec, aget Z.eqb b (by_bridger s) = Some o /\ aget Z.eqb o (oracles s) = Some rec /\
+                o_online rec = true /\ n = cursor s o + 1 /\
+                In (o, n) (vlog (fst (vote s b n cl park ms))).
+Proof. exact vote_accept_online. Qed.
+Print Assumptions C01_vote_is_next.
+
+(* the unguarded statement is false of the code: UnbondedOracle deletes the oracle's cursor, so after
+   governance removal + unbond + re-approval + re-bond the same oracle votes again for a still pending nonce
+   (witness replayed on the real keeper by harness/c01, finding C01-1) *)
+Theorem C01_revote_refuted :
+  exists c h, 0 <= c_threshold c /\
+    let s := run c init h in
+    exists a, aget keq (1, 1) (atts s) = Some a /\ a_obs a = true /\ last_obs s = 1 /\
+              a_votes a = [0; 1; 0] /\ nonces_of 0 (vlog s) = [1; 1] /\
+              last_total s = 1000 /\ dpower (oracles s) (a_votes a) = 500 /\
+              100 * dpower (oracles s) (a_votes a) + 99 < 66 * last_total s.
+Proof. exact revote_refuted. Qed.
+Print Assumptions C01_revote_refuted.
+
+(* a parked claim runs its effects at most once *)
+Theorem C01_exec_once : forall c h, NoDup (effects (run c init h)).
+Proof. exact exec_once. Qed.
+Print Assumptions C01_exec_once.
+
+Theorem C01_exec_shape : forall s n ok,
+  (snd (exec s n ok) = Ok ->
+     ok = true /\ (exists v, aget Z.eqb n (pending s) = Some v) /\
+     aget Z.eqb n (pending (fst (exec s n ok))) = None /\
+     effects (fst (exec s n ok)) = effects s ++ [n]) /\
+  (snd (exec s n ok) <> Ok -> fst (exec s n ok) = s).
+Proof. exact exec_shape. Qed.
+Print Assumptions C01_exec_shape.
+
+Theorem C01_executed_never_pending : forall c h n,
+  In n (effects (run c init h)) -> aget Z.eqb n (pending (run c init h)) = None.
+Proof. exact executed_never_pending. Qed.
+Print Assumptions C01_executed_never_pending.
+
+(* non-vacuity: three oracles, competing claims at nonce 2, nonce 3 gathering 2/3 of the power first,
+   a late vote on an observed attestation, deferred executions incl. a repeated and a failing one *)
+Theorem C01_nonvacuous :
+  guarded cfg0 safe_unbond init h_example /\
+  let s := run cfg0 init h_example in
+  applied s = [(1, 1); (2, 2); (3, 4)] /\ last_obs s = 3 /\ effects s = [3; 2] /\ pending s = [] /\
+  vlog s = [(0, 1); (1, 1); (0, 2); (1, 2); (0, 3); (1, 3); (2, 1); (2, 2); (2, 3)] /\
+  last_total s = 900 /\ online_power (oracles s) = 900 /\
+  (exists a, aget keq (2, 3) (atts s) = Some a /\ a_obs a = false /\ a_votes a = [1]).
+Proof. exact example_history. Qed.
+Print Assumptions C01_nonvacuous.
+
+(* tie to the source: the constants and the set of store writers read from /repo by harness/gen_c01 on this run
+   are the ones the model transcribes *)
+Theorem C01_source_shape :
+  gen_vote_threshold = vote_threshold /\ gen_tally_divisor = 100 /\
+  gen_change_threshold = change_threshold /\ gen_max_keep = max_keep /\ gen_max_oracles = max_oracles /\
+  gen_power_reduction = power_reduction /\
+  gen_writer_sites = expected_writer_sites /\ gen_raw_key_users = expected_raw_key_users.
+Proof. exact gen_matches_model. Qed.
+Print Assumptions C01_source_shape.
